@@ -68,6 +68,7 @@ TOL_NODE = 1e-12        # relative to r + h
 TOL_T = 1e-10
 RIGID_SCALE = {'cheap': 2e-1, 'medium': 3e-2, 'expensive': 5e-3}
 KINDS = ('cheap', 'medium', 'expensive')
+SMALL_DISPLACEMENT = 1e-7   # (r + h): node displacements below this are accuracy-only
 T_FLOOR = 0.05          # rigid-motion backstop judged where at least this fraction is transmitted
 LEN_UNITS = ('mm', 'cm', 'm')
 NEAR_AXIS = 1.0 / 64    # the axial-offset leak eps |b.a| / tilt can exceed 64 eps (|p-b|+r+h) only below this angle
@@ -169,7 +170,7 @@ def judge_beam(st: State, ev):
     if ev.exc is not None:
         ctx.violation('beam_intersection_raised',
                       f'beam_intersection raised {type(ev.exc).__name__}: {ev.exc}', case,
-                      origin=tag, **g.keys)
+                      origin=tag)
         return
     if st.big:
         st.big_counter += 1
@@ -251,16 +252,16 @@ def judge_beam(st: State, ev):
         'class': cls, 'start_rho_z_own_frame': [repr(rho0), repr(float(z))],
         'rays_failing': int(badi.size), 'rays': int(got.size),
     }
-    near_par = bool(np.ravel(o['near_parallel'])[i])
     case['worst_ray']['angle_to_axis_direction'] = repr(float(np.ravel(o['tilt'])[i]))
+    case['worst_ray']['sign'] = sign
+    case['worst_ray']['start_inside'] = start_inside
     case['failing_rays_angle_to_axis'] = [repr(float(x)) for x in np.ravel(o['tilt'])[badi][:8]]
     case['failing_rays_got_expected'] = [[repr(float(np.ravel(got)[k])), repr(float(np.ravel(L)[k]))]
                                          for k in badi[:8]]
+    # mechanism keys only (few combinations: the runner groups witnesses by kind + keys)
     ctx.violation(kind, f'beam_intersection [{tag}]: got {gi!r}, ray inside the solid over {Li!r} '
                         f'({badi.size}/{got.size} rays outside the accepted interval)', case,
-                  origin=tag, sign=sign, start_inside=start_inside, near_parallel=near_par,
-                  all_failing_near_axis_direction=bool(np.all(np.ravel(o['tilt'])[badi] <= NEAR_AXIS)),
-                  ray_class=list(cls) if cls else None)
+                  origin=tag, near_axis=bool(np.all(np.ravel(o['tilt'])[badi] <= NEAR_AXIS)))
 
 
 # -------------------------------------------------------------- helper monitors ---
@@ -354,8 +355,9 @@ def judge_slab(st: State, ev):
         case = {'monitor': '_line_slab_intersection', 'left': repr(float(le.ravel()[i])),
                 'right': repr(float(ri.ravel()[i])), 'h/|n.a|': repr(float(exp.ravel()[i])),
                 'origin_height_over_base': repr(float(z0.ravel()[i])), 'h': repr(float(hh.ravel()[i]))}
+        case['aspect'] = 'width' if bad_w.ravel()[i] else 'membership'
         ctx.violation('helper_slab', 'slab interval is not {t: 0 <= z0 + t n.a <= h}', case,
-                      origin=st.origin, aspect='width' if bad_w.ravel()[i] else 'membership')
+                      origin=st.origin)
 
 
 def judge_infinite_cylinder(st: State, ev):
@@ -412,8 +414,8 @@ def judge_infinite_cylinder(st: State, ev):
                 'flag': bool(fl.ravel()[i]), 'A': repr(float(np.ravel(A)[i])),
                 'B': repr(float(np.ravel(B)[i])), 'C': repr(float(np.ravel(C)[i]))}
         ctx.violation('helper_infinite_cylinder',
-                      'interval is not {t: rho(t n - b) <= r} for a well-conditioned line', case,
-                      origin=st.origin, aspect='flag' if bad_f.ravel()[i] else 'roots')
+                      'interval is not {t: rho(t n - b) <= r} for a well-conditioned line',
+                      dict(case, aspect='flag' if bad_f.ravel()[i] else 'roots'), origin=st.origin)
 
 
 # ------------------------------------------------------------ quadrature monitor ---
@@ -469,8 +471,9 @@ def judge_quadrature(st: State, c, kind, result, exc, origin, canonical=False):
     except Exception:  # noqa: BLE001
         ctx.oracle_error('C18 geometry of observed cylinder')
         return None
-    keys = dict(g.keys, quadrature_kind=str(kind), pose='canonical' if canonical else 'general')
-    case = {'monitor': 'quadrature', 'origin': origin, 'kind': str(kind), 'cylinder': g.descr()}
+    keys = dict(g.keys)      # mechanism facts; kind and pose are in the case description
+    case = {'monitor': 'quadrature', 'origin': origin, 'kind': str(kind), 'cylinder': g.descr(),
+            'pose': 'canonical' if canonical else 'general'}
     if exc is not None:
         if isinstance(exc, NotImplementedError) and kind not in KINDS:
             ctx.count('excluded:unknown_kind')
@@ -531,7 +534,7 @@ def judge_quadrature(st: State, c, kind, result, exc, origin, canonical=False):
         ctx.violation('quad_node_outside',
                       f'quadrature({kind}): {n_out}/{w.size} nodes outside the solid '
                       f'(worst by {float(excess[i]):.3g} (r+h))', case,
-                      excess_band=_band(float(excess[i])), **keys)
+                      small_displacement=bool(float(excess[i]) <= SMALL_DISPLACEMENT), **keys)
     if not np.all(w > 0) or not np.all(np.isfinite(w)):
         ctx.violation('quad_weight_nonpositive',
                       f'quadrature({kind}): {int(np.count_nonzero(~(w > 0)))} weights not > 0', case,
@@ -579,15 +582,9 @@ def judge_quadrature(st: State, c, kind, result, exc, origin, canonical=False):
         ctx.violation('quad_rigid_image',
                       f'quadrature({kind}): nodes in the cylinder\'s own frame are not the canonical '
                       f'rule for (r, h) (mismatch {d:.3g} x tolerance)', case,
-                      mismatch_band=_band(d * tol_pos / g.scale) if np.isfinite(d) else 'shape',
+                      small_displacement=bool(np.isfinite(d) and d * tol_pos / g.scale <= SMALL_DISPLACEMENT),
                       **keys)
     return tab
-
-
-def _band(x):
-    if not np.isfinite(x) or x <= 0:
-        return 'none'
-    return f'1e{int(np.floor(np.log10(x)))}'
 
 
 def canonical_table(st: State, c, kind):
@@ -635,7 +632,7 @@ def judge_select(st: State, ev):
     if outside or not np.all(w > 0) or not rel <= TOL_SUM or not mom <= TOL_SUM:
         case.update(outside=outside, rel_sum=rel, first_moment=mom)
         ctx.violation('unit_rule', f'unit rule {kind}: outside={outside}, |sum w-2pi|/2pi={rel:.3g}, '
-                                   f'first moment {mom:.3g}', case, quadrature_kind=str(kind))
+                                   f'first moment {mom:.3g}', case)
 
 
 # ---------------------------------------------------------- transmission monitors ---
@@ -721,8 +718,8 @@ def judge_single_scatter(st: State, ev):
         np_all = bool(np.all(((np.ravel(o1['tilt']) <= NEAR_AXIS) | (np.ravel(o2['tilt']) <= NEAR_AXIS))[bad]))
         ctx.violation('single_scatter_distance',
                       f'distance through sample {g1!r} is not L_in + L_out = '
-                      f'{float(np.ravel(o1["L"])[i] + np.ravel(o2["L"])[i])!r}', case, looks_like=only,
-                      all_failing_near_axis_direction=np_all, origin='in_situ')
+                      f'{float(np.ravel(o1["L"])[i] + np.ravel(o2["L"])[i])!r}',
+                      dict(case, looks_like=only), near_axis=np_all)
 
 
 def on_quadrature_return(st: State, ev):
@@ -753,7 +750,7 @@ def judge_map(st: State, ev):
     case = {'monitor': 'compute_transmission_map', 'kind': str(kind), 'cylinder': g.descr()}
     if st.case_descr:
         case['case'] = st.case_descr
-    keys = dict(g.keys, quadrature_kind=str(kind))
+    keys = dict(g.keys)
     if ev.exc is not None:
         ctx.violation('transmission_raised',
                       f'compute_transmission_map raised {type(ev.exc).__name__}: {ev.exc}', case,
@@ -808,23 +805,24 @@ def judge_map(st: State, ev):
     ctx.dev('transmission |observed - recomputed|', float(np.max(np.abs(Tj - exp))))
     ctx.dev('transmission enclosure width', float(np.max(hi - lo)))
     mu_max = float(np.max(mu))
-    keys['zero_attenuation'] = bool(mu_max == 0.0)
-    keys['beam_near_axis_direction'] = _beam_tilt_class(g, beam)
+    case['zero_attenuation'] = bool(mu_max == 0.0)
+    beam_near = _beam_tilt_class(g, beam)
     det_tilt = _tilt(g, D - np.asarray(g.base + g.axis * float(g.h) / 2))
     near_det = det_tilt <= NEAR_AXIS
-    keys['detector_near_axis_direction'] = bool(np.any(near_det))
+    case['beam_near_axis_direction'] = beam_near
+    keys['near_axis'] = bool(beam_near or np.any(near_det))
     if not worst <= TOL_T:
         i, j = np.unravel_index(int(np.argmax(err)), err.shape)
         case.update(detector_index=int(i if sub is None else sub[i]), wavelength_index=int(j),
                     got=repr(float(Tj[i, j])), recomputed=repr(float(exp[i, j])),
                     mu_per_unit=repr(float(mu[j])), nodes=int(w.size),
                     sum_w_over_V=repr(float(np.sum(w.astype(LD)) / V)))
-        # mechanism fact for the worst detector: is any node-to-detector direction near the axis?
-        keys['detector_near_axis_direction'] = bool(
-            near_det[i] or np.any(_tilt(g, D[i][None, :] - pts) <= NEAR_AXIS))
+        # mechanism fact for the worst detector: is any direction involved near the axis?
+        keys_v = dict(keys, near_axis=bool(
+            beam_near or near_det[i] or np.any(_tilt(g, D[i][None, :] - pts) <= NEAR_AXIS)))
         ctx.violation('transmission_value',
                       f'transmission {float(Tj[i, j])!r}, recomputed from the observed quadrature and '
-                      f'oracle paths {float(exp[i, j])!r}', case, **keys)
+                      f'oracle paths {float(exp[i, j])!r}', case, **keys_v)
     if float(np.min(exp)) < 1e-200:
         ctx.count('out_of_domain:transmission_underflow')
     elif not (np.all(T > 0) and np.all(T <= 1 + 1e-6)):
@@ -855,7 +853,7 @@ def judge_map(st: State, ev):
             ctx.violation('transmission_normalisation',
                           f'map differs from (weighted sum)/(pi r^2 h) by {dn:.3g}', case, **keys)
     st.maps.append({'T': T, 'geom': g, 'kind': str(kind), 'mu_max': mu_max, 'exp': exp,
-                    'sub': sub, 'near_axis': bool(keys['beam_near_axis_direction'] or np.any(near_det))})
+                    'sub': sub, 'near_axis': keys['near_axis']})
 
 
 def _tilt(g, d):
@@ -1259,9 +1257,7 @@ def transmission_case(rng, st, mods, i, tier):
                            'moved_cylinder': g2.descr(), 'T': m1['T'].ravel()[:6].tolist(),
                            'T_moved': other['T'].ravel()[:6].tolist()},
                           axis_z_negative=bool(defect_pose), rotation_applied=True,
-                          quadrature_kind=kind,
-                          near_axis_direction=bool(m1['near_axis'] or other['near_axis']),
-                          axis_near_equator=bool(g1.keys['axis_near_equator'] or g2.keys['axis_near_equator']))
+                          near_axis=bool(m1['near_axis'] or other['near_axis']))
     st.maps.clear()
     return s
 
@@ -1486,35 +1482,24 @@ def _rotation_negative_z(v):
             and k.get('rotation_applied') is True)
 
 
-def _band_exponent(k):
-    b = k.get('excess_band') or k.get('mismatch_band')
-    try:
-        return int(str(b)[2:])
-    except (TypeError, ValueError):
-        return None
-
-
 def _rotation_near_equator(v):
     """asin is ill-conditioned at 1: axis within 1e-3 of the xy-plane (z >= 0), nodes displaced
     by at most ~sqrt(eps) (r + h)."""
     k = v.get('keys') or {}
-    e = _band_exponent(k)
     return (v.get('kind') in {'quad_node_outside', 'quad_rigid_image'}
             and k.get('axis_near_equator') is True and k.get('rotation_applied') is True
-            and k.get('axis_z_negative') is False and e is not None and e <= -8)
+            and k.get('axis_z_negative') is False and k.get('small_displacement') is True)
+
+
+_NEAR_AXIS_KINDS = {'path_length', 'single_scatter_distance', 'transmission_value',
+                    'transmission_rigid_motion', 'transmission_other_end'}
 
 
 def _near_axis_ray(v):
+    """Every failing ray (or the beam / a scattering direction of the failing map element) is
+    within 1/64 rad of the axis direction without being bitwise parallel to it."""
     k = v.get('keys') or {}
-    kind = v.get('kind')
-    if kind in ('path_length', 'single_scatter_distance'):
-        return k.get('all_failing_near_axis_direction') is True
-    if kind == 'transmission_value':
-        return (k.get('beam_near_axis_direction') is True
-                or k.get('detector_near_axis_direction') is True)
-    if kind in ('transmission_rigid_motion', 'transmission_other_end'):
-        return k.get('near_axis_direction') is True
-    return False
+    return v.get('kind') in _NEAR_AXIS_KINDS and k.get('near_axis') is True
 
 
 FINDING_PREDICATES = {
